@@ -294,6 +294,9 @@ func (sv *Solver) SolveAll(obls []*Obligation, workers int, progress func(o *Obl
 						for range o.Split {
 							x := <-ch
 							o.Seconds += x.t
+							if os.Getenv("GOVC_TRACE") != "" {
+								fmt.Fprintf(os.Stderr, "trace: %s split case -> %s %.1fs\n", o.Name, x.r, x.t)
+							}
 							if x.r != "unsat" {
 								all = false
 							}
@@ -309,6 +312,9 @@ func (sv *Solver) SolveAll(obls []*Obligation, workers int, progress func(o *Obl
 						q := o.Query()
 						r, s, t, d := sv.Solve(o.Name, q)
 						o.Result, o.Solver, o.Seconds, o.Model = r, s, o.Seconds+t, d
+						if os.Getenv("GOVC_TRACE") != "" {
+							fmt.Fprintf(os.Stderr, "trace: %s whole -> %s (%s) %.1fs\n", o.Name, r, s, t)
+						}
 						if r != "unsat" && r != "sat" && len(o.Split) > 1 && !sv.smokeOnly && !o.SplitFirst {
 							if solveSplit() {
 								o.Result, o.Solver = "unsat", "split"
